@@ -55,6 +55,11 @@ ShapeDef(i) ==
                   @@ A("S1", 2, 1) :> Fm(CallN("SUM", <<Rng("", 1, 1, 1, 3)>>))
                   @@ A("S1", 3, 1) :> Fm(Bin("+", RelRef(2, 1), RelRef(1, 2))) ),
          names |-> <<>>, inputs |-> {A("S1", 1, 1), A("S1", 1, 2)}]
+    [] i = "overlap" ->      \* two overlapping range addresses over the same inputs
+        [cells |-> ( A("S1", 1, 1) :> Kc(1) @@ A("S1", 1, 2) :> Kc(1) @@ A("S1", 1, 3) :> Kc(1)
+                  @@ A("S1", 2, 1) :> Fm(CallN("SUM", <<Rng("", 1, 1, 1, 3)>>))
+                  @@ A("S1", 3, 1) :> Fm(Bin("+", CallN("SUM", <<Rng("", 1, 1, 1, 2)>>), CallN("SUM", <<Rng("", 1, 2, 1, 3), RelRef(2, 1)>>))) ),
+         names |-> <<>>, inputs |-> {A("S1", 1, 1), A("S1", 1, 2)}]
     [] i = "named" ->
         [cells |-> ( A("S1", 1, 1) :> Kc(1) @@ A("S1", 1, 2) :> Kc(1)
                   @@ A("S1", 2, 1) :> Fm(Bin("+", Bin("*", NameRef("Rate"), N2), RelRef(1, 2)))
